@@ -75,6 +75,8 @@ def explore(res, text, tags, seed, nrand, pool, model=None, sort_lists=False, pr
     real_idx = rng.randrange(len(runs))
     seen = set()
     sample = None
+    failed_modes = set()
+    cyclic = prog is not None and "has_pos_cycle" in tags
     for idx, (mode, choice) in enumerate(runs):
         o, log = run_mode(text, mode, choice, model, sort_lists, budget, evaluator="both" if idx == real_idx else "fast")
         res["evaluations"] += 1
@@ -109,6 +111,9 @@ def explore(res, text, tags, seed, nrand, pool, model=None, sort_lists=False, pr
         seen.add(sig)
         m = make_match(sig, sigt, b2, tags, mode, name)
         owner = DC.owner_of(ID, m)
+        if owner is not None and prog is not None and "has_pos_cycle" in tags and m.get("faulty_is") == "alternative" \
+                and str(m.get("faulty", "")).split(":")[0] in ("err", "crash"):
+            failed_modes.add(mode)
         if owner is not None:
             key = "absorbed:%s:%s" % (owner, sig)
             for v in res["violations"]:
@@ -125,6 +130,11 @@ def explore(res, text, tags, seed, nrand, pool, model=None, sort_lists=False, pr
             res["inconclusive"]["fast_diff_not_confirmed_by_real"] = res["inconclusive"].get("fast_diff_not_confirmed_by_real", 0) + 1
             continue
         res["violations"].append(bv)
+    if cyclic:
+        rc = res.setdefault("rate_counters", {})
+        rc["cyclic_programs"] = rc.get("cyclic_programs", 0) + 1
+        for mo in failed_modes:
+            rc["failing_" + mo] = rc.get("failing_" + mo, 0) + 1
     if len(res["samples"]) < 1 and sample:
         res["samples"].append({"program": text if len(text) < 1500 else name, "tags": tags,
                                "default": {k: base.get(k) for k in ("kind", "results", "cls", "steps")}, "alternative": sample})
@@ -198,6 +208,29 @@ def build_violation(sig, sigt, base, mode, log, text, tags, prog, model, sort_li
                        "case_digest": digest((small_text if prog is not None else name, mode, script))}}
 
 
+# Share of generated programs with a positive cycle on which an unbuffered mode fails with an error that the findings policy
+# attributes to the (class-level) F5/F15 findings. Measured on the unchanged tree (quick tier, ~1600 cyclic programs): D 1.9 %, Drc 1.5 %, R 16 % (any of 4 random orders).
+# The individual failures are known; a jump of the rate is not.
+RATE_LIMIT = {"D": 0.08, "Drc": 0.08, "R": 0.32}
+
+
+def post_merge(acc):
+    """Aggregate oracle over the recorded history of the whole run (called by the parent after merging the shards)."""
+    rc = acc.get("rate_counters", {})
+    n = rc.get("cyclic_programs", 0)
+    out = []
+    if n < 300:
+        return out
+    for mode, lim in RATE_LIMIT.items():
+        r = rc.get("failing_" + mode, 0) / float(n)
+        if r > lim:
+            sig = "rate:%s" % mode
+            out.append({"signature": sig, "summary": "%s: mode %s fails with known-finding errors on %.1f %% of %d cyclic programs (limit %.0f %%, unchanged tree: D 2 %%, Drc 2 %%, R 16 %%)" % (
+                sig, mode, 100 * r, n, 100 * lim), "match": {"signature": sig, "mode": mode},
+                "replay": {"rate": True, "mode": mode, "limit": lim, "case_digest": digest(("rate", mode))}})
+    return out
+
+
 def new_result():
     return {"evaluations": 0, "nontrivial": [], "traces": [], "violations": [], "samples": [],
             "simulated_time": {"messages": 0}, "faults_injected": {"random_choice_points": 0},
@@ -243,6 +276,22 @@ def run_shard(shard):
 
 
 def replay(doc):
+    if doc.get("rate"):
+        # re-measure on the first generated shards of the quick tier, sequentially
+        seed = int(os.environ.get("VERIF_SEED", "0") or 0)
+        acc = {}
+        for sh in [s for s in shards("quick", seed) if s["type"] == "gen"][:6]:
+            r = run_shard(dict(sh, programs=60))
+            for k, v in r.get("rate_counters", {}).items():
+                acc[k] = acc.get(k, 0) + v
+        n = max(acc.get("cyclic_programs", 0), 1)
+        mode = doc["mode"]
+        rate = acc.get("failing_" + mode, 0) / float(n)
+        if rate > doc.get("limit", RATE_LIMIT[mode]):
+            sig = "rate:%s" % mode
+            return [{"signature": sig, "summary": "%s: %.1f %% of %d cyclic programs" % (sig, 100 * rate, n), "match": {"signature": sig, "mode": mode},
+                     "replay": dict(doc)}]
+        return []
     name = doc.get("file")
     model = None
     if doc.get("program_text") is None and name:
